@@ -829,7 +829,16 @@ func (t *tScreen) drawCell(x, y int) int {
 		return width
 	}
 
-	if y == t.h-1 && x == t.w-1 && t.ti.AutoMargin && ti.DisableAutoMargin == "" && ti.InsertChar != "" {
+	if y == t.h-1 && x == 0 && (t.w == 1 || (width == 2 && t.w == 2)) && t.ti.AutoMargin && ti.DisableAutoMargin == "" && ti.InsertChar != "" {
+		// the corner cell is the whole line: there is no neighbour to go
+		// through (below), and written directly it makes these terminals
+		// scroll.  It stays unpainted.
+		t.cells.SetDirty(x, y, false)
+		return width
+	}
+
+	if y == t.h-1 && (x == t.w-1 || (width == 2 && x == t.w-2)) && t.ti.AutoMargin && ti.DisableAutoMargin == "" && ti.InsertChar != "" {
+		// (a wide rune that ends in the last column takes the same way round)
 		// our solution is somewhat goofy.
 		// we write to the second to the last cell what we want in the last cell, then we
 		// insert a character at that 2nd to last position to shift the last column into
